@@ -350,3 +350,19 @@ Definition check_C16 (v out : val) : bool :=
   let ctx := v_big (v_nth 2 v) in
   let lens := lens_of (v_clusters (v_nth 3 v)) in
   prop_okb kind max ctx lens (v_wres (v_nth 0 out)).
+
+(** * Correspondence of the segmenter (UAX29_Model): the cluster list handed over by the
+    harness must be what the model's own segmenter produces for the text — [segment] in
+    grapheme mode, one cluster per code point otherwise.  Part of [agree], not of
+    [check_C16]: a mismatch is a model/implementation disagreement, not a property failure. *)
+From TU Require Import UAX29_Model.
+Fixpoint cls_eqb (a b : list cluster) : bool :=
+  match a, b with
+  | [], [] => true
+  | x :: a', y :: b' => nlist_eqb x y && cls_eqb a' b'
+  | _, _ => false
+  end.
+Definition seg_of (g : bool) (s : str) : list cluster := if g then segment s else singletons s.
+Definition uax29_agree (v : val) : bool :=
+  let seg := v_clusters (v_nth 3 v) in
+  cls_eqb (seg_of (v_bool (v_nth 4 v)) (concat seg)) seg.
